@@ -496,4 +496,164 @@ theorem parseLoop_render (now : Int) (t : JobTable) (acc : JobTable) (fuel : Nat
           (by simp at hf; omega)
         simpa using this
 
+/-! ## the fuel of the parsing loops never runs out -/
+
+theorem cutNL_length {c l r : Bytes} (h : cutNL c = some (l, r)) : r.length < c.length := by
+  induction c generalizing l r with
+  | nil => simp [cutNL] at h
+  | cons b bs ih =>
+    simp only [cutNL] at h
+    split at h
+    · simp at h; obtain ⟨_, rfl⟩ := h; simp
+    · split at h
+      · simp at h
+      · rename_i l' r' h'
+        simp at h; obtain ⟨_, rfl⟩ := h
+        have := ih h'; simp; omega
+
+theorem parseLine_length {c p v r : Bytes} (h : parseLine c p = .ok (v, r)) : r.length < c.length := by
+  unfold parseLine at h
+  split at h
+  · simp at h
+  · split at h
+    · simp at h
+    · rename_i line rem hc
+      split at h
+      · simp at h
+      · simp at h; obtain ⟨_, rfl⟩ := h; exact cutNL_length hc
+
+theorem parseOptionalLine_length {c p v r : Bytes} (h : parseOptionalLine c p = .ok (v, r)) :
+    r.length ≤ c.length := by
+  unfold parseOptionalLine at h
+  split at h
+  · simp at h; obtain ⟨_, rfl⟩ := h; simp
+  · split at h
+    · exact Nat.le_of_lt (parseLine_length h)
+    · simp at h; obtain ⟨_, rfl⟩ := h; exact Nat.le_refl _
+
+theorem parseStreamLine_length {c r : Bytes} {st st' : List (Bytes × Int)}
+    (h : parseStreamLine c st = .ok (r, st')) : r.length < c.length := by
+  unfold parseStreamLine at h
+  split at h
+  · simp at h
+  · rename_i line rest hc
+    have hlt := cutNL_length hc
+    repeat' (split at h)
+    all_goals (first | (simp at h; done) | (simp at h; obtain ⟨rfl, _⟩ := h; exact hlt))
+
+theorem liftGo_ne_fuel {α} (x : GoM α) : liftGo x ≠ .error .fuel := by
+  cases x <;> simp [liftGo]
+
+theorem parseStreamLine_no_fuel (c : Bytes) (st : List (Bytes × Int)) :
+    parseStreamLine c st ≠ .error .fuel := by
+  intro h
+  unfold parseStreamLine at h
+  repeat' (split at h)
+  all_goals (first | (simp at h; done) | skip)
+  all_goals (simp at h; subst h; exact liftGo_ne_fuel _ (by assumption))
+
+theorem streamsLoop_fuel (f : Nat) (c : Bytes) (st : List (Bytes × Int)) (hf : c.length < f) :
+    streamsLoop f c st ≠ .error .fuel ∧
+    ∀ r st', streamsLoop f c st = .ok (r, st') → r.length ≤ c.length := by
+  induction f generalizing c st with
+  | zero => omega
+  | succ f ih =>
+    unfold streamsLoop
+    split
+    · constructor
+      · simp
+      · intro r st' h; simp at h; obtain ⟨rfl, _⟩ := h; simp
+    · rename_i b bs
+      split
+      · constructor
+        · simp
+        · intro r st' h; simp at h; obtain ⟨rfl, _⟩ := h; exact Nat.le_refl _
+      · split
+        · rename_i e he
+          constructor
+          · intro h; simp at h; subst h
+            exact parseStreamLine_no_fuel _ _ he
+          · intro r st' h; simp at h
+        · rename_i rest st1 hl
+          have hlt := parseStreamLine_length hl
+          have := ih rest st1 (by omega)
+          constructor
+          · exact this.1
+          · intro r st' h; have := this.2 r st' h; omega
+
+theorem parseLine_no_fuel (c p : Bytes) : parseLine c p ≠ .error .fuel := by
+  unfold parseLine
+  repeat' split
+  all_goals simp
+
+theorem parseOptionalLine_no_fuel (c p : Bytes) : parseOptionalLine c p ≠ .error .fuel := by
+  unfold parseOptionalLine
+  repeat' split
+  all_goals (first | exact parseLine_no_fuel _ _ | simp)
+
+theorem parseOne_fuel (now : Int) (c : Bytes) (offs : JobTable) :
+    parseOne now c.length c offs ≠ .error .fuel ∧
+    ∀ r offs', parseOne now c.length c offs = .ok (r, offs') → r.length < c.length := by
+  unfold parseOne
+  split
+  · rename_i e he
+    exact ⟨by intro h; simp at h; subst h; exact parseLine_no_fuel _ _ he, by intro r o h; simp at h⟩
+  rename_i filename c1 h1
+  have l1 := parseLine_length h1
+  split
+  · rename_i e he
+    exact ⟨by intro h; simp at h; subst h; exact parseLine_no_fuel _ _ he, by intro r o h; simp at h⟩
+  rename_i inodeStr c2 h2
+  have l2 := parseLine_length h2
+  split
+  · rename_i e he
+    exact ⟨by intro h; simp at h; subst h; exact parseLine_no_fuel _ _ he, by intro r o h; simp at h⟩
+  rename_i sourceStr c3 h3
+  have l3 := parseLine_length h3
+  split
+  · rename_i e he
+    exact ⟨by intro h; simp at h; subst h; exact parseOptionalLine_no_fuel _ _ he, by intro r o h; simp at h⟩
+  rename_i tsStr c4 h4
+  have l4 := parseOptionalLine_length h4
+  split
+  · exact ⟨by simp, by intro r o h; simp at h⟩
+  split
+  · exact ⟨by simp, by intro r o h; simp at h⟩
+  split
+  · exact ⟨by simp, by intro r o h; simp at h⟩
+  split
+  · exact ⟨by simp, by intro r o h; simp at h⟩
+  split
+  · rename_i e he
+    exact ⟨by intro h; simp at h; subst h; exact parseLine_no_fuel _ _ he, by intro r o h; simp at h⟩
+  rename_i x5 c5 h5
+  have l5 := parseLine_length h5
+  have hs := streamsLoop_fuel c.length c5 [] (by omega)
+  split
+  · rename_i e he
+    exact ⟨by intro h; simp at h; subst h; exact hs.1 he, by intro r o h; simp at h⟩
+  · rename_i rest streams hl
+    have := hs.2 rest streams hl
+    exact ⟨by simp, by intro r o h; simp at h; obtain ⟨rfl, _⟩ := h; omega⟩
+
+theorem parseLoop_fuel (now : Int) (f : Nat) (c : Bytes) (offs : JobTable) (hf : c.length < f) :
+    parseLoop now f c offs ≠ .error .fuel := by
+  induction f generalizing c offs with
+  | zero => omega
+  | succ f ih =>
+    unfold parseLoop
+    split
+    · simp
+    · have h1 := parseOne_fuel now c offs
+      split
+      · rename_i e he
+        intro h; simp at h; subst h; exact h1.1 he
+      · rename_i rest offs' hl
+        have := h1.2 rest offs' hl
+        exact ih rest offs' (by omega)
+
+/-- the fuel is a model artefact only: `parse` never reports it -/
+theorem parse_fuel_ok (now : Int) (c : Bytes) : parse now c ≠ .error .fuel :=
+  parseLoop_fuel now (c.length + 1) c [] (by omega)
+
 end FileD.OffsetsFile
